@@ -213,5 +213,7 @@ def check(fb, ctx):
     conv = [b["key"] for b in fb.bodies.values() if b["crate"] == "biscuit_auth" and re.search(r"token::builder::Convert<.*>>::convert$", b["path"])]
     keys = set(fb.reachable(conv))
     reach.run(fb, ctx, conv, rule="REACH", exclude_fn=lambda b: not b["file"].startswith("biscuit-auth/src/token/builder/"))
+    from props import c18
+    c18.parallel_binding_rules(fb, ctx)
     ctx.not_decided = ["that substitution yields exactly the bound value beyond AST-level replacement (structural by construction)"]
     ctx.trusted = ["rustc HIR/typeck resolution", "panic catalogue and allow-list"]
